@@ -15,7 +15,7 @@ static void omp_case(int kind) {
     return;
   }
   case 3: case 4: { /* mp front ends: four sections + remainder strips that are not multiples of 128 */
-    int m = vh_pick((int[]){256, 300, 383, 385, 420, 520}, 6), l = vh_pick((int[]){256, 260, 300, 391}, 4), n = vh_pick((int[]){256, 257, 330, 400}, 4);
+    int m = vh_pick((int[]){5, 70, 256, 300, 383, 385, 420, 520}, 8), l = vh_pick((int[]){256, 260, 300, 391}, 4), n = vh_pick((int[]){3, 256, 257, 330, 400}, 5);   /* also fewer rows / columns than threads */
     vh_mul_case(kind == 3 ? 14 : 15, m, l, n, 0, 0, vh_pick((int[]){0, 64, 128, 256}, 4), vh_randint(0, 1));
     return;
   }
